@@ -66,6 +66,10 @@ def run(ctx):
         ctx.count("verify-runs")
 
     x_hcheck.run_histories(ctx, ctx.n(220, 6000), monitor=monitor, tag="c15")
+    # bodies outside the abstract grammar of the model: monitored directly on the stored files
+    from vlib import x_scenarios
+    x_scenarios.whole_upload_fidelity(ctx, ctx.n(60, 1500))
+    x_scenarios.item_put_fidelity(ctx, ctx.n(120, 3000))
 
 
 def replay(ctx, path):
